@@ -67,6 +67,38 @@ def run(ctx, rep):
                 if e.endswith('->state') and 'block' in e and 'snapraid_block' in (f.insts[f.strip(i.ops[1])[1]].src or '') if f.strip(i.ops[1])[0] == 'i' else False:
                     rep.fail('R-C06-1', '%s writes block->state directly' % f.name, i.loc(), 'store to the block state outside block_state_set', function=base(f.name), construct='direct state store')
 
+    # the predicates every engine uses to classify a block, over the whole state domain (finite: five states + no block)
+    from .. import region as RG
+    rep.rule('R-C06-11', 'block predicates over all states: has_file = {BLK,CHG,REP}; invalid_parity = {CHG,REP,DELETED}; file_and_valid_parity = {BLK}; updated_hash = {BLK,REP}; past_hash = {CHG,DELETED}; none holds for an empty position', 5)
+    states = dict(st); states['DELETED'] = deleted
+    table = {'block_has_file': {'BLK', 'CHG', 'REP'}, 'block_has_invalid_parity': {'CHG', 'REP', 'DELETED'}, 'block_has_file_and_valid_parity': {'BLK'},
+             'block_has_updated_hash': {'BLK', 'REP'}, 'block_has_past_hash': {'CHG', 'DELETED'}}
+    lay = P.distructs.get('snapraid_block')
+    if not lay or deleted is None:
+        raise AnalysisBroken('struct snapraid_block / DELETED state not found')
+    so = [m for m in lay['members'] if m['name'] == 'state'][0]
+    for pn, want in sorted(table.items()):
+        vs = P.variants(pn)
+        if not vs:
+            raise AnalysisBroken('predicate %s not found' % pn)
+        g = vs[0]
+        rep.analysed(g)
+        got = set()
+        for name, k in states.items():
+            R = RG.Region(P)
+            bp = RG.P_(('obj', 'block'), 0)
+            R.mem[(bp.reg, so['off'])] = k
+            try:
+                if R.run(g, 0, [bp]):
+                    got.add(name)
+            except RG.Unsupported as e:
+                raise AnalysisBroken('cannot interpret %s: %s' % (pn, e))
+        try:
+            if RG.Region(P).run(g, 0, [0]):      # BLOCK_NULL: a position without a block
+                got.add('EMPTY')
+        except RG.Unsupported as e:
+            raise AnalysisBroken('cannot interpret %s on BLOCK_NULL: %s' % (pn, e))
+        rep.check(got == want, 'R-C06-11', '%s holds exactly for %s' % (pn, sorted(want)), g.file, 'holds for %s' % sorted(got), function=pn, construct='truth table')
     L = StripeLoop(P, 'state_sync_process')
     f = L.f
     rep.analysed(f)
